@@ -198,7 +198,8 @@ HARNESSES[-1]["decoder"] = None
 LXH("lx_double_quoted_literal_direct", ["C01", "C02", "C03", "C04", "C06", "C07", "C10", "C11", "C16"], "quick", "closing quote + <= 2 code points of suffix; payload handed over symbolic", ["Lexer::lex_double_quoted_literal", "Lexer::resolve_string_literal_ending", "Lexer::update_last_token"], 300, stubs=HEXS, fixed='"', contexts=["quote"], mem=8)
 LXH("lx_str_expr_start", ["C01", "C02", "C03", "C04", "C06", "C10"], "quick", "'\"' + <= 1 code point", ["Lexer::lex_string_expression_start"], 300, fixed='"', contexts=["default"], mem=8)
 DLF = ["Lexer::lex_datalines", "Cursor::advance_by"]
-LXH("lx_datalines_direct_k3", COMMON + ["C06", "C10", "C11"], "quick", "'cArds' consumed + <= 3 code points; look-behind none / ';' / other, optional hidden token", DLF, 1800, cfgs=("nodebug",), fixed="cArds", contexts=["default"], mem=16)
+LXH("lx_datalines_direct_k2", COMMON + ["C06", "C10", "C11", "C15"], "quick", "'cArds' consumed + <= 2 code points; look-behind none / ';' / other, optional hidden token", DLF, 1500, cfgs=("nodebug",), fixed="cArds", contexts=["default"], mem=16)
+LXH("lx_datalines_direct_k3", COMMON + ["C06", "C10", "C11", "C15"], "thorough", "'cArds' consumed + <= 3 code points; look-behind none / ';' / other, optional hidden token", DLF, 5400, cfgs=("nodebug",), fixed="cArds", contexts=["default"], mem=16)
 LXH("lx_datalines_direct_k4", COMMON + ["C06", "C10", "C11"], "thorough", "'lines' consumed + <= 4 code points", DLF, 5400, cfgs=("nodebug",), fixed="lines", contexts=["default"], mem=20)
 LXH("lx_datalines4_direct_k6", COMMON + ["C06", "C10", "C11"], "thorough", "'cards4' consumed + <= 6 code points (';;;;' terminator)", DLF, 7200, cfgs=("nodebug",), fixed="cards4", contexts=["default"], mem=24)
 TDC = ["every sub-lexer of the dispatcher (quotes, comments, blanks, macro variable / call / comment, the mode's text scanner) -> recording stand-ins; lex_macro_call's outcome chosen by the harness; the scanners have their own harnesses"]
@@ -213,7 +214,7 @@ LXH("lx_symbols_table", COMMON + ["C06", "C11"], "quick", "<= 2 code points, fir
 LXH("lx_char_format_k5", COMMON + ["C06", "C11"], "quick", "'$' + <= 4 code points", ["Lexer::lex_symbols", "Lexer::lex_char_format", "Cursor::advance_by"], 1200, stubs=XID, fixed="$", contexts=["default"], mem=12, cfgs=("debug", "nodebug"))
 CLS = ["all sub-lexers of dispatch_mode_default -> contract stand-ins that consume one char, emit one token of a type of theirs and record which one ran"]
 LXH("lx_default_classifier", COMMON + ["C06", "C08", "C10", "C11"], "quick", "<= 3 code points, first char any; pending flag symbolic", ["Lexer::dispatch_mode_default", "Lexer::set_pending_stat"], 900, stubs=CLS + XID, contexts=["default"], mem=10)
-LXH("lx_macro_do_arms", ["C01", "C02", "C03", "C04", "C09", "C14"], "quick", "<= 3 code points after %do; macro keyword lookup answer symbolic", ["Lexer::dispatch_macro_do", "lex_macro_call_stat_or_label", "Lexer::lex_macro_identifier"], 1200, stubs=KWR + DKR + XID, contexts=["after_do"], mem=12)
+LXH("lx_macro_do_arms", ["C01", "C02", "C03", "C04", "C09", "C11", "C14", "C15"], "quick", "<= 3 code points after %do; macro keyword lookup answer symbolic", ["Lexer::dispatch_macro_do", "lex_macro_call_stat_or_label", "Lexer::lex_macro_identifier"], 1200, stubs=KWR + DKR + XID, contexts=["after_do"], mem=12)
 LXH("lx_macro_local_global_arms", ["C01", "C02", "C03", "C04", "C09", "C14"], "quick", "<= 2 code points after %local/%global", ["Lexer::dispatch_macro_local_global", "Lexer::expect_macro_let_stat"], 600, contexts=["default"], mem=8)
 NES = ["Lexer::lex_macro_call / lex_macro_var_expr -> contract stand-ins (arbitrary outcome; a call/variable consumes two chars and emits one token)", "Lexer::lex_cstyle_comment -> one-char comment stand-in"]
 LXH("lx_name_expr_arms", COMMON + ["C06", "C14"], "quick", "<= 3 code points; found-name flag and the statement's error kind symbolic", ["Lexer::dispatch_macro_name_expr"], 900, stubs=NES + XID, contexts=["name_expr"], mem=10)
